@@ -43,7 +43,10 @@ impl<'a> RegExp<'a> {
         #[cfg(grex_verif)]
         crate::verif::emit(crate::verif::Event::Expr(crate::verif::expression(&ast)));
 
-        if config.is_start_anchor_disabled && config.is_end_anchor_disabled {
+        if config.is_start_anchor_disabled
+            && config.is_end_anchor_disabled
+            && Self::is_expr_convertible_to_regex(&ast, config)
+        {
             let mut regex = Self::convert_expr_to_regex(&ast, config);
 
             if config.is_verbose_mode_enabled {
@@ -118,12 +121,26 @@ impl<'a> RegExp<'a> {
                 .unwrap_or(false)
     }
 
+    fn is_expr_convertible_to_regex(expr: &Expression, config: &RegExpConfig) -> bool {
+        // Surrogate pairs are meant for other regex engines and are rejected by the regex crate.
+        // The subsequent check whether all test cases are matched is skipped in this case.
+        !config.is_astral_code_point_converted_to_surrogate
+            || Self::try_convert_expr_to_regex(expr, config).is_ok()
+    }
+
     fn convert_expr_to_regex(expr: &Expression, config: &RegExpConfig) -> Regex {
+        Self::try_convert_expr_to_regex(expr, config).unwrap()
+    }
+
+    fn try_convert_expr_to_regex(
+        expr: &Expression,
+        config: &RegExpConfig,
+    ) -> std::result::Result<Regex, regex::Error> {
         if config.is_output_colorized {
             let color_replace_regex = Regex::new("\u{1b}\\[(?:\\d+;\\d+|0)m").unwrap();
-            Regex::new(&color_replace_regex.replace_all(&expr.to_string(), "")).unwrap()
+            Regex::new(&color_replace_regex.replace_all(&expr.to_string(), ""))
         } else {
-            Regex::new(&expr.to_string()).unwrap()
+            Regex::new(&expr.to_string())
         }
     }
 
